@@ -434,3 +434,10 @@ func Dial(s *simrt.Sim, network, address string) (*Conn, error) {
 	s.Event("dial", int64(id), 0)
 	return cl, nil
 }
+
+// InjectAcceptErrs makes the listener at address return n temporary errors.
+func (n *Net) InjectAcceptErrs(address string, k int) {
+	if l, ok := n.listeners[address]; ok {
+		l.AcceptErrs = k
+	}
+}
